@@ -753,7 +753,7 @@ fn scenarios(tier: Tier) -> Vec<Scenario> {
         one(vec![f(&[0], 0), f(&[1], 2), f(&[2], 0)]),
         Scenario {
             family: "inject".into(),
-            sessions: vec![SessionSpec { files: vec![f(&[0, 1, 2], 0), f(&[3, 4], 0)], order: vec![0, 1, 0, 1, 0, 1, 0, 1], salt: 0 }],
+            sessions: vec![SessionSpec { files: vec![f(&[0, 1, 2], 0), f(&[3, 4], 0)], order: vec![0, 1, 0, 1, 0, 1, 0, 1], salt: 0, foreign: false }],
         },
         Scenario {
             family: "inject".into(),
@@ -795,7 +795,7 @@ fn scenarios(tier: Tier) -> Vec<Scenario> {
             one(vec![f(&[0], 0), f(&[1], 0), f(&[2], 0), f(&[3], 0), f(&[4], 0)]),
             Scenario {
                 family: "inject".into(),
-                sessions: vec![SessionSpec { files: vec![f(&[0, 1], 0), f(&[0, 1], 0)], order: vec![0, 1, 0, 1, 0, 1], salt: 0 }],
+                sessions: vec![SessionSpec { files: vec![f(&[0, 1], 0), f(&[0, 1], 0)], order: vec![0, 1, 0, 1, 0, 1], salt: 0, foreign: false }],
             },
             Scenario {
                 family: "inject".into(),
